@@ -49,6 +49,7 @@ def main():
         from cohdl import std  # noqa: F401
     # my own helper modules (no cohdl objects are created by importing them)
     import vf.session.history  # noqa: F401
+    import vf.session.typehist  # noqa: F401
 
     out.write(json.dumps({"ready": True, "hashseed": os.environ.get("PYTHONHASHSEED"), "flavour": flavour}) + "\n")
     out.flush()
